@@ -710,6 +710,10 @@ def run(prog, rep, tier):
     ns, nt = check_crash(prog, rep)
     check_resume_order(prog, rep)
     check_resume_keys(prog, rep)
+    if check_init_state_once(prog, rep) < 1:
+        raise AnalysisError('RESUME-init-once: no in-place preparation of psi in any init_state')
+    if check_resume_forwarded(prog, rep) < 15:
+        raise AnalysisError('RESUME-forward: fewer than 15 overrides delegate with resume_data')
     if check_resume_sequential(prog, rep) < 1:
         raise AnalysisError('RESUME-sequential: no **mapping passed to run_seq_simulations')
     rep.floor('CRASH-typestate', 8)
@@ -845,4 +849,127 @@ def check_resume_sequential(prog, rep):
                           'run_seq_simulations it becomes the prefix of the remaining '
                           'simulations: their results land in other files than in the '
                           'uninterrupted run', c.lineno)
+    return n
+
+
+# ------------------------------------------------------------------ init_state on resume
+def _mutates_psi(ct, ci, f, depth=0):
+    """does the method update self.psi in place (statement-level call on self.psi / on a local
+    alias of it, a store into it) or call a method of self that does?"""
+    alias = {'self.psi'}
+    for st in stmts_of(f):
+        if isinstance(st, ast.Assign) and len(st.targets) == 1 and isinstance(
+                st.targets[0], ast.Name) and unparse(st.value) in alias:
+            alias.add(st.targets[0].id)
+    for st in stmts_of(f):
+        if isinstance(st, ast.Expr) and isinstance(st.value, ast.Call) and isinstance(
+                st.value.func, ast.Attribute):
+            recv = st.value.func.value
+            if unparse(recv) in alias:
+                return True
+            if isinstance(recv, ast.Name) and recv.id == 'self' and depth < 2:
+                _, g = ct.resolve_method(ci, st.value.func.attr)
+                if g is not None and g is not f and _mutates_psi(ct, ci, g, depth + 1):
+                    return True
+        for t in ([x for x in st.targets] if isinstance(st, ast.Assign) else []):
+            if isinstance(t, ast.Subscript) and unparse(t.value) in alias:
+                return True
+    return False
+
+
+def check_init_state_once(prog, rep):
+    """RESUME-init-once: on resume psi comes from the checkpoint and init_state() runs again; any
+    preparation that changes psi in place (applying the t=0 operator, a perturbation) must sit on
+    the path where psi was freshly built, i.e. under `not hasattr(self, 'psi')`."""
+    ct = prog.classtable()
+    n = 0
+    for ci in ct.all:
+        if not ci.module.relpath.startswith('tenpy/simulations/'):
+            continue
+        f = ci.methods.get('init_state')
+        if f is None:
+            continue
+        nf = inline_temps(f)
+        for st in stmts_of(nf):
+            if not (isinstance(st, ast.Expr) and isinstance(st.value, ast.Call) and isinstance(
+                    st.value.func, ast.Attribute)):
+                continue
+            c = st.value
+            recv = c.func.value
+            hot = False
+            if unparse(recv) == 'self.psi':
+                hot = True
+            elif isinstance(recv, ast.Name) and recv.id == 'self':
+                _, g = ct.resolve_method(ci, c.func.attr)
+                hot = g is not None and _mutates_psi(ct, ci, g)
+            if not hot:
+                continue
+            gs = guards_of(nf, st)
+            fresh = any(pmatch("hasattr(self, 'psi')", e) and not pol for _, pol, e in gs)
+            n += 1
+            rep.instance('RESUME-init-once', {'class': ci.name, 'call': key_text(st)[:70],
+                                              'guards': [(t, p) for t, p, _ in gs]})
+            if not fresh:
+                rep.violation('RESUME-init-once', ci.module, ci.name + '.init_state',
+                              'not-guarded:' + c.func.attr,
+                              '`%s` changes psi in place but is not restricted to the path where '
+                              'psi was freshly built (`not hasattr(self, \'psi\')`): when the '
+                              'simulation is resumed, psi comes from the checkpoint and the '
+                              'preparation is applied a second time to the evolved state' %
+                              unparse(c)[:70], st.lineno)
+    return n
+
+
+def check_resume_forwarded(prog, rep):
+    """RESUME-forward: an override that receives `resume_data` and delegates to the same method of
+    its base class hands the resume data on (the base classes restore their part of the state
+    from it: sweeps, evolved_time, environments, ...)."""
+    from ..core import bound_args
+
+    def params(fn):    # here: including keyword-only parameters
+        a = fn.args
+        return [x.arg for x in a.posonlyargs + a.args + a.kwonlyargs]
+    ct = prog.classtable()
+    n = 0
+    for ci in ct.all:
+        for name, f in ci.methods.items():
+            named = 'resume_data' in params(f)
+            if not named and f.args.kwarg is None:
+                continue
+            for c in body_nodes(f):
+                if not (isinstance(c, ast.Call) and isinstance(c.func, ast.Attribute) and
+                        c.func.attr == name):
+                    continue
+                skip_self = True
+                if isinstance(c.func.value, ast.Call) and call_name(c.func.value) == 'super':
+                    _, g = ct.resolve_method(ci, name, after=ci)
+                elif isinstance(c.func.value, ast.Name) and c.args and isinstance(
+                        c.args[0], ast.Name) and c.args[0].id == 'self' and any(
+                            k.name == c.func.value.id for k in ci.mro[1:]):
+                    bi = [k for k in ci.mro[1:] if k.name == c.func.value.id][0]
+                    _, g = ct.resolve_method(bi, name)      # `Base.meth(self, ..)`
+                    skip_self = False
+                else:
+                    continue
+                if g is None or not ('resume_data' in params(g) or g.args.kwarg is not None):
+                    continue
+                if not named and (name != '__init__' or not any(
+                        'resume_data' in params(k.methods['__init__']) for k in ci.mro
+                        if '__init__' in k.methods)):
+                    continue      # **kwargs not known to carry resume data
+                ba = bound_args(c, g, skip_self=skip_self)
+                v = ba.get('resume_data')
+                has_star = any(k.arg is None for k in c.keywords) or any(
+                    isinstance(a, ast.Starred) for a in c.args)
+                ok = has_star or (v is not None and 'resume_data' in names_in(v))
+                n += 1
+                rep.instance('RESUME-forward', {'function': '%s.%s' % (ci.name, name),
+                                                'super_call': unparse(c)[:70], 'forwards': ok})
+                if not ok:
+                    rep.violation('RESUME-forward', ci.module, '%s.%s' % (ci.name, name),
+                                  'dropped:resume_data',
+                                  '`%s` does not pass `resume_data` on: the base class restores '
+                                  'its part of the checkpointed state from it (a resumed run '
+                                  'restarts its counters / schedule instead of continuing)' %
+                                  unparse(c)[:70], c.lineno)
     return n
